@@ -50,35 +50,45 @@ def run(ctx):
              "_proc.oneshot_enter pairs with oneshot_exit; per platform module "
              "enter/exit name the same methods; activated <=> decorated "
              "memoize_when_activated", floor=8)
-    trys = [t for t in ast.walk(one.node) if isinstance(t, ast.Try) and t.finalbody]
-    ctx.require(trys, "oneshot(): try/finally vanished")
-    t = trys[0]
-    act = _activations(t.body, "cache_activate")
-    deact = _activations(t.finalbody, "cache_deactivate")
-    act_any = _activations(one.node.body, "cache_activate")
-    deact_any = _activations(one.node.body, "cache_deactivate")
-    names = lambda xs: {m for m, _ in xs}  # noqa: E731
-    if act == deact and act and names(act_any) == names(act) \
-            and names(deact_any) == names(deact):
-        ctx.ok("C16.R1", "frontend:pairs", sample={"activate/deactivate": sorted(map(str, act))})
+    trys = [t for t in ast.walk(one.node) if isinstance(t, ast.Try) and t.finalbody
+            and any(isinstance(x, ast.Yield) for b in t.body for x in ast.walk(b))]
+    act = set()
+    if not trys:
+        act_any = _activations(one.node.body, "cache_activate")
+        ctx.require(act_any, "oneshot(): cache activation vanished")
+        act = act_any
+        ctx.fail("C16.R1", "frontend:pairs", one.file, one.node.lineno, one.qual,
+                 "the caches oneshot() activates are not deactivated in a `finally` around "
+                 "the yield: when the block is left by an exception they stay active and "
+                 "every later call keeps answering from the stale snapshot")
     else:
-        ctx.fail("C16.R1", "frontend:pairs", one.file, t.lineno, one.qual,
-                 f"activated in try: {sorted(map(str, act_any))}; deactivated in finally: "
-                 f"{sorted(map(str, deact))}; (deactivations outside finally: "
-                 f"{sorted(map(str, deact_any - deact))}) - after the block some method "
-                 f"would keep answering from a stale cache or leak on exception")
-    enter_in_try = any(method_calls(s, "oneshot_enter", "self._proc") for s in t.body)
-    exit_in_fin = any(method_calls(s, "oneshot_exit", "self._proc") for s in t.finalbody)
-    # yield inside try, after the activations
-    yields = [s for s in t.body if isinstance(s, ast.Expr) and isinstance(s.value, ast.Yield)]
-    order_ok = bool(yields) and t.body.index(yields[0]) == len(t.body) - 1
-    if enter_in_try and exit_in_fin and order_ok:
-        ctx.ok("C16.R1", "frontend:enter-exit", sample="oneshot_enter in try, yield last, "
-               "oneshot_exit in finally")
-    else:
-        ctx.fail("C16.R1", "frontend:enter-exit", one.file, t.lineno, one.qual,
-                 "self._proc.oneshot_enter()/oneshot_exit() are not paired around the "
-                 "yield by try/finally")
+        t = trys[0]
+        act = _activations(t.body, "cache_activate")
+        deact = _activations(t.finalbody, "cache_deactivate")
+        act_any = _activations(one.node.body, "cache_activate")
+        deact_any = _activations(one.node.body, "cache_deactivate")
+        names = lambda xs: {m for m, _ in xs}  # noqa: E731
+        if act == deact and act and names(act_any) == names(act) \
+                and names(deact_any) == names(deact):
+            ctx.ok("C16.R1", "frontend:pairs", sample={"activate/deactivate": sorted(map(str, act))})
+        else:
+            ctx.fail("C16.R1", "frontend:pairs", one.file, t.lineno, one.qual,
+                     f"activated in try: {sorted(map(str, act_any))}; deactivated in finally: "
+                     f"{sorted(map(str, deact))}; (deactivations outside finally: "
+                     f"{sorted(map(str, deact_any - deact))}) - after the block some method "
+                     f"would keep answering from a stale cache or leak on exception")
+        enter_in_try = any(method_calls(s, "oneshot_enter", "self._proc") for s in t.body)
+        exit_in_fin = any(method_calls(s, "oneshot_exit", "self._proc") for s in t.finalbody)
+        # yield inside try, after the activations
+        yields = [s for s in t.body if isinstance(s, ast.Expr) and isinstance(s.value, ast.Yield)]
+        order_ok = bool(yields) and t.body.index(yields[0]) == len(t.body) - 1
+        if enter_in_try and exit_in_fin and order_ok:
+            ctx.ok("C16.R1", "frontend:enter-exit", sample="oneshot_enter in try, yield last, "
+                   "oneshot_exit in finally")
+        else:
+            ctx.fail("C16.R1", "frontend:enter-exit", one.file, t.lineno, one.qual,
+                     "self._proc.oneshot_enter()/oneshot_exit() are not paired around the "
+                     "yield by try/finally")
     # decorated <=> activated (front end)
     deco = {n for n, fs in repo.methods("psutil", "Process").items()
             for f in fs if "memoize_when_activated" in f.decorators}
